@@ -1,4 +1,4 @@
-import O2P.Props.C15
+import O2P.Props.C15Full
 open O2P.Store
 #print axioms ingest_window
 #print axioms reingest_nodes
@@ -8,3 +8,9 @@ open O2P.Store
 #print axioms runSpec_hashes_irrelevant
 #print axioms inv_empty
 #print axioms faithful_empty
+#print axioms renameNodes_idem
+#print axioms reingest_fixpoint
+#print axioms noingest_fixpoint
+#print axioms rerun_same_answer
+#print axioms history_same_answer
+#print axioms first_run_sameNA
